@@ -575,6 +575,9 @@ var ndLabelPairs = []struct {
 	{"empty-key-str-vs-num", lblSpec{L: map[string][]string{"": {}}}, lblSpec{N: map[string][]int64{"": {}}}},
 	{"num-keys-a,b-vs-a", lblSpec{N: map[string][]int64{"a": {}, "b": {}}}, lblSpec{N: map[string][]int64{"a": {1, 0x62, 0}}}},
 	{"num-2^63", lblSpec{N: map[string][]int64{"k": {math.MinInt64}}}, lblSpec{N: map[string][]int64{"k": {math.MaxInt64}}}},
+	{"str-values-vs-num-key", lblSpec{L: map[string][]string{"a": {"\x01", "k", ""}}}, lblSpec{L: map[string][]string{"a": {}}, N: map[string][]int64{"k": {}}}},
+	{"num[1]-vs-unit['']", lblSpec{N: map[string][]int64{"k": {1}}}, lblSpec{N: map[string][]int64{"k": {}}, U: map[string][]string{"k": {""}}}},
+	{"str-value-vs-next-key", lblSpec{L: map[string][]string{"a": {"b"}, "c": {}}}, lblSpec{L: map[string][]string{"a": {}, "b": {"c"}}}},
 	{"num-128-vs-[0,1]", lblSpec{N: map[string][]int64{"k": {128}}}, lblSpec{N: map[string][]int64{"k": {0, 1}}}},
 }
 
@@ -645,7 +648,8 @@ func placePair(a, b *profile.Profile, placement int, tag string) c03Gen {
 func genLabelSoup(r *Rng) c03Gen {
 	p := ndBase()
 	p.Sample = nil
-	strs := []string{"", "\x00", "\x01", "k", "\x01k", "\x00\x01"}
+	strs := []string{"", "\x00", "\x01", "\x02", "k", "\x01k", "\x00\x01", "\x01\x00"}
+	nums := []int64{0, 1, 2, 107}
 	n := 6 + r.Intn(14)
 	for i := 0; i < n; i++ {
 		s := &profile.Sample{Location: []*profile.Location{p.Location[1]}, Value: []int64{int64(1 + r.Intn(9)), int64(r.Intn(3))}}
@@ -653,7 +657,7 @@ func genLabelSoup(r *Rng) c03Gen {
 			s.Label = map[string][]string{}
 			for j, m := 0, r.Intn(3); j < m; j++ {
 				var vs []string
-				for a, b := 0, r.Intn(3); a < b; a++ {
+				for a, b := 0, r.Intn(4); a < b; a++ {
 					vs = append(vs, r.Pick(strs))
 				}
 				s.Label[r.Pick(strs)] = vs
@@ -665,8 +669,8 @@ func genLabelSoup(r *Rng) c03Gen {
 			for j, m := 0, r.Intn(3); j < m; j++ {
 				k := r.Pick(strs)
 				var vs []int64
-				for a, b := 0, r.Intn(3); a < b; a++ {
-					vs = append(vs, int64(r.Intn(3)))
+				for a, b := 0, r.Intn(4); a < b; a++ {
+					vs = append(vs, nums[r.Intn(len(nums))])
 				}
 				s.NumLabel[k] = vs
 				if r.Chance(50) {
